@@ -572,6 +572,12 @@ func (sp *subProcess) run(ctx context.Context, out tracing.ITracer) {
 					verifhook.Point("sub.subscribed")
 					defer sp.subTracer.Unsubscribe(traces)
 
+					// One cease flow monitor per activation: the sub-process
+					// may be entered again (e.g. from a loop) once the
+					// previous activation has completed.
+					sender := sp.subTracer.RegisterSender()
+					go sp.ceaseFlowMonitor(sp.subTracer)(ctx, sender)
+
 					if err := sp.startAll(ctx); err != nil {
 						subProcessId := ""
 						if pid, present := sp.element.Id(); present {
@@ -622,13 +628,7 @@ func (sp *subProcess) run(ctx context.Context, out tracing.ITracer) {
 func (sp *subProcess) NextAction(ctx context.Context, flow Flow) chan IAction {
 	if sp.active.CompareAndSwap(0, 1) {
 		// flow nodes
-		// StartAll cease flow monitor
-		sender := sp.subTracer.RegisterSender()
 		tracer := sp.wr.tracer
-		// The monitor observes (and reports on) the inner tracer: that is
-		// where the inner flow nodes send their traces and where run()
-		// waits for the cease flow trace.
-		go sp.ceaseFlowMonitor(sp.subTracer)(ctx, sender)
 		go sp.run(ctx, tracer)
 	}
 
